@@ -311,6 +311,38 @@ static int run_pos(const case_t *c, mx_result_t *r)
         verdict = 1;
         break;
     }
+    case V_ALGMIX:
+    {
+        /* a genuine ECDSA signature over a digest e, verified with a signature algorithm id that belongs to ANOTHER key type:
+           i = which id; the message handed over is e followed by 32 more bytes.  psVerifySig dispatches on the key type
+           and skips hashing for ids it believes to be "pure" (Ed25519): a verifier that then feeds the front of the raw
+           message to ECDSA accepts it.  An algorithm id that does not fit the key never verifies. */
+        static const int32 ids[] = { OID_ED25519_KEY_ALG, OID_SHA256_RSA_SIG, OID_RSASSA_PSS };
+        eckey_t *E = ec_get(c->k);
+        unsigned char msg[128], dig[64], sig[160], *hm, *hs;
+        BIGNUM *rr = BN_new(), *ss = BN_new();
+        psBool_t res = PS_FALSE;
+        int ml, sl, rc;
+        if (!E || c->i < 0 || c->i > 2) { BN_free(rr); BN_free(ss); return NA; }
+        ml = std_msg(msg, "algmix", E->bits, H_SHA256, 0);
+        ref_hash(H_SHA256, msg, (size_t) ml, dig);
+        if (!ec_valid_sig(E, dig, 32, 0, rr, ss)) { BN_free(rr); BN_free(ss); internal_err(r, "ecdsa-sign", "cannot sign"); return 0; }
+        sl = der_ecdsa_strict(rr, ss, sig);
+        BN_free(rr); BN_free(ss);
+        memset(msg, 0x33, sizeof(msg));
+        memcpy(msg, dig, 32);            /* E->size <= 66: for the larger curves the cut is longer than e; the id must fail anyway */
+        snprintf(r->desc, sizeof(r->desc), "%s (P-%d key, genuine ECDSA-SHA256 signature, psVerifySig with algorithm id %d and the message digest||filler)", md, E->bits, (int) ids[c->i]);
+        hm = hdup(msg, 64); hs = hdup(sig, (size_t) sl);
+        rc = psVerifySig(NULL, hm, 64, hs, (psSize_t) sl, &E->mx, ids[c->i], &res, NULL);
+        free(hm); free(hs);
+        if (rc == PS_SUCCESS && res == PS_TRUE)
+        {
+            snprintf(key, sizeof(key), "algorithm-id-of-another-key-type|P-%d|id=%d|accepted", E->bits, (int) ids[c->i]);
+            violate(r, key, "psVerifySig ACCEPTED a signature under algorithm id %d with a P-%d ECDSA key (rc %d)", (int) ids[c->i], E->bits, rc);
+        }
+        verdict = 1;
+        break;
+    }
     case V_RSALONG:
     {
         /* psVerifySig with an RSA key and a reference message LONGER than any digest (what the X.509 validator passes when a
